@@ -17,6 +17,7 @@ static Verdict run(const Case &c) {
         const Op &op = c.ops[i];
         if (op.kind == K_ADVANCE) { vp_set_now_ms(vp_now_ms() + (uint64_t)op.arg(0)); continue; }
         if (op.kind == K_SETICON) { w.set_icon(op.blob); continue; }
+        if (op.kind == 16 /* platform changes the interface's hardware address */) { own = mac_from_u64(0x020000000000ULL | (uint64_t)(op.arg(0) & 0xFFFFFF) | 0x01000000ULL); memcpy(w.ctx(ifi)->mac, own.b, 6); h.own = mac_to_u64(own); continue; }
         Built b = build_frame(h, op, sh);
         if (!b.is_frame) continue;
         std::vector<Ev> evs = w.deliver(ifi, b.frame);
@@ -79,7 +80,15 @@ int main(int argc, char **argv) {
               "distinct = digest of the whole case";
     HistWeights w;
     w.discover = 10; w.hello = 4; w.reset = 3;
-    bool ok = run_cases(a, ev, "c03-histories", a.n(40000, 600000), 100, hg::hist_case(w, 1, 40), run);
+    auto gen = rc::gen::exec([=] {
+        Case c = *hg::hist_case(w, 1, 40);
+        if (*gx::chance(15) && !c.ops.empty()) {   // the platform changes the interface's address somewhere in the history
+            Op m; m.kind = 16; m.a = {*gx::range<int64_t>(1, 0xFFFFFF)};
+            c.ops.insert(c.ops.begin() + *gx::range<int>(0, (int)c.ops.size() - 1), m);
+        }
+        return c;
+    });
+    bool ok = run_cases(a, ev, "c03-histories", a.n(40000, 600000), 100, gen, run);
     ev.write(a.out);
     return ok ? 0 : 1;
 }
